@@ -9,7 +9,10 @@
 (* constant.  EntryPoints is the complete list of the property; the        *)
 (* postcondition requires every one of them to have been drawn and closed, *)
 (* so an entry point that is missing from the recording is reported, not   *)
-(* silently passed.                                                        *)
+(* silently passed.  FaultEntryPoints are exercised under an injected     *)
+(* fault (every lock request refused; the OS random source failing): a     *)
+(* call may then return NO value, but a value that is returned is held to  *)
+(* the same freshness rule.                                                *)
 (***************************************************************************)
 EXTENDS Naturals, Sequences, FiniteSets, TLC, Json, IOUtils
 
